@@ -968,7 +968,8 @@ pub fn driver_main(check: Arc<dyn Check>, cfg: RunConfig) -> i32 {
         "wall_s": t0.elapsed().as_secs_f64(),
         "violations": violations.len(),
     });
-    let evdir = format!("{}/evidence", verif_dir());
+    // (self-tests against mutated trees write their evidence elsewhere)
+    let evdir = std::env::var("VERIF_EVIDENCE_DIR").unwrap_or_else(|_| format!("{}/evidence", verif_dir()));
     let _ = std::fs::create_dir_all(&evdir);
     let _ = std::fs::write(format!("{}/{}.json", evdir, id), serde_json::to_string_pretty(&ev).unwrap());
 
